@@ -14,7 +14,7 @@ func init() { register("C14", propC14) }
 func v(n string) aff { return affVar(n) }
 
 func propC14(c *Ctx) {
-	c.Explanation = "Decides, for ALL 32-bit operands, that each primitive of pkg/seqnum computes the serial-number-arithmetic definition in the property: every function body is abstractly evaluated (loop-free path enumeration, affine terms mod 2^32, signed tests rewritten to unsigned intervals, callees substituted) into a predicate normal form which is compared exactly - over the finite partition induced by the interval end points - with the definition written in the same normal form; a mismatch is reported with the interval of distances on which code and definition differ. Additionally a type-resolved lint shows that the TCP/stack/header packages never order seqnum.Value operands with raw < <= > >= (so all ordering goes through the decided primitives) and that the out-of-order heap orders by LessThan. NOT decided: the consequence clause (that every TCP property holds at wrap-adjacent initial sequence numbers) beyond this necessary condition; Overlap is decided against its definition-by-composition, which coincides with 'the windows share a sequence number' only for window sizes < 2^31 (pen-and-paper lemma, see DESIGN.md)."
+	c.Explanation = "Decides, for ALL 32-bit operands, that each primitive of pkg/seqnum computes the serial-number-arithmetic definition in the property: every function body is abstractly evaluated (loop-free path enumeration, affine terms mod 2^32, signed tests rewritten to unsigned intervals, callees substituted) into a predicate normal form which is compared exactly - over the finite partition induced by the interval end points - with the definition written in the same normal form; a mismatch is reported with the interval of distances on which code and definition differ. Additionally a type-resolved lint shows that the TCP/stack/header packages never order seqnum.Value operands with raw < <= > >= (so all ordering goes through the decided primitives) and that the out-of-order heap orders by LessThan. S2 also flags a seqnum.Value converted to any plain integer type and then ordered. NOT decided: the consequence clause (that every TCP property holds at wrap-adjacent initial sequence numbers) beyond this necessary condition; Overlap is decided against its definition-by-composition, which coincides with 'the windows share a sequence number' only for window sizes < 2^31 (pen-and-paper lemma, see DESIGN.md)."
 	c.Assumptions = []string{
 		"Go semantics of uint32/int32 arithmetic and conversions as modelled by the affine32 evaluator",
 		"Overlap's definition-by-composition equals window intersection for sizes < 2^31 (TCP windows are <= 2^30)",
@@ -214,13 +214,20 @@ func seqLint(c *Ctx, S2 string, scope []string) int {
 				}
 			case *ssa.Convert:
 				// widening a Value/Size and then ordering it
-				if (isSeqValue(x.X.Type())) && wider32(x.Type()) {
+				// (any conversion out of the Value type followed by an ordering is a
+				// position-dependent comparison: int32(a) < int32(b) is inverted when
+				// a and b straddle 2^31, uint32(a) < uint32(b) when they straddle 0)
+				if isSeqValue(x.X.Type()) && isIntType(x.Type()) && !isSeqValue(x.Type()) {
 					if refs := x.Referrers(); refs != nil {
 						for _, r := range *refs {
 							if b, ok := r.(*ssa.BinOp); ok {
 								switch b.Op {
-								case token.LSS, token.LEQ, token.GTR, token.GEQ, token.SUB:
-									c.Bad(S2, FuncName(fn)+"/widened-order:"+Term(b), c.P.Pos(b.Pos()), "seqnum.Value widened to "+TypeStr(x.Type())+" and then ordered/subtracted: not modular")
+								case token.LSS, token.LEQ, token.GTR, token.GEQ:
+									c.Bad(S2, FuncName(fn)+"/converted-order:"+Term(b), c.P.Pos(b.Pos()), "seqnum.Value converted to "+TypeStr(x.Type())+" and then ordered: the result depends on where in the 32-bit space the operands sit, not on their distance")
+								case token.SUB:
+									if wider32(x.Type()) {
+										c.Bad(S2, FuncName(fn)+"/widened-order:"+Term(b), c.P.Pos(b.Pos()), "seqnum.Value widened to "+TypeStr(x.Type())+" and then subtracted: not modular")
+									}
 								}
 							}
 						}
